@@ -48,7 +48,7 @@ pub fn run(tier: Tier, seed: u64) -> i32 {
     let mut rep = Report::new("C04", tier, seed);
     rep.exhaustive = true;
     rep.level = "fault_enumeration";
-    rep.rule = "enumeration: for every privileged instruction of the program (catalogue cross-checked at run time against the `pub fn` list of /repo/programs/whirlpool/src/lib.rs; unknown instruction => inconclusive) a golden invocation that must succeed on the base state, then every variant on a clone of that state: (a) authority key present without signature, (b) a different funded key signing, (b') keys differing from the authority in one bit at either end, (c) the corresponding authority of another config / pool, and for position-token authorities additionally (c') another holder with the token account of their own position, (d) a delegate with delegated amount 0, 1, 2 (only 1 may pass), (e) a token account of the position mint holding 0 tokens, (f) the token account of another position with its real owner signing, (g) the delegate's key in the slot while only the owner signs, (h) a forged copy of the token account (attacker as owner, amount 1) owned by a program that is not a token program: a random id and ids that share a prefix, a suffix or both ends with the Token / Token-2022 ids. Every variant except the documented ones must fail. distinct = (instruction, variant)".into();
+    rep.rule = "enumeration: for every privileged instruction of the program (catalogue cross-checked at run time against the `pub fn` list of /repo/programs/whirlpool/src/lib.rs; unknown instruction => inconclusive) a golden invocation that must succeed on the base state, then every variant on a clone of that state: (a) authority key present without signature, (b) a different funded key signing, (b') keys differing from the authority in one bit at either end, (c) the corresponding authority of another config / pool, and for position-token authorities additionally (c') another holder with the token account of their own position, (d) a delegate with delegated amount 0, 1, 2 (only 1 may pass), (e) a token account of the position mint holding 0 tokens, (f) the token account of another position with its real owner signing, (g) the delegate's key in the slot while only the owner signs, (h) a forged copy of the token account (attacker as owner, amount 1) owned by a program that is not a token program: a random id and ids that share a prefix, a suffix or both ends with the Token / Token-2022 ids, (i) a Token-program multisig account created through the real InitializeMultisig whose bytes read as a token account of the position mint held by the attacker (for the catalogue position whose mint address starts with a valid multisig header). Every variant except the documented ones must fail. distinct = (instruction, variant)".into();
     rep.assumptions = vec!["native mini-SVM with the runtime's signer-privilege rules; a variant that would need a signature the transaction does not carry cannot be built by a client at all (counted as rejected)".into(), "keys are sampled: an authority comparison that ignores some byte is only probed at byte 0 and byte 31".into()];
     let flavours = tier.pick(1, 4);
     let mut acc = Acc::default();
@@ -143,6 +143,33 @@ pub fn run(tier: Tier, seed: u64) -> i32 {
                                 variants.push((format!("h:forged_token_account_owned_by_{n}"), bk, with_signer(&g.ix, a.slot, other_user).with_key(token_slot, forged), false));
                             }
                         }
+                        // (i) account-type confusion: a Token-program *multisig* (355 bytes) whose header bytes are the
+                        // first bytes of the position mint and whose signer keys spell a token account of that mint
+                        // held by the attacker; forged through the real InitializeMultisig where the mint allows it
+                        if let (Some(ta), Some(mint)) = (&tok_acct, mint) {
+                            let mb = mint.to_bytes();
+                            if ta.owner == TOKEN && mb[2] == 1 && mb[0] >= 1 && mb[0] <= mb[1] && mb[1] <= 11 {
+                                let mut img = vec![0u8; 355];
+                                img[..165].copy_from_slice(&ta.data[..165]);
+                                img[32..64].copy_from_slice(other_user.as_ref());
+                                img[64..72].copy_from_slice(&1u64.to_le_bytes());
+                                img[165] = 2; // AccountType::Account, where the extension-aware layout keeps it
+                                let signers: Vec<Pubkey> = (0..mb[1] as usize).map(|i| Pubkey::new_from_array(img[3 + 32 * i..35 + 32 * i].try_into().unwrap())).collect();
+                                let forged = bs.w.new_key();
+                                let mut bk = bank.clone();
+                                bk.set(forged, crate::svm::Acct { lamports: 10_000_000, data: vec![0u8; 355], owner: TOKEN, executable: false });
+                                let refs: Vec<&Pubkey> = signers.iter().collect();
+                                let init = spl_token::instruction::initialize_multisig(&TOKEN, &forged, &refs, mb[0]).unwrap();
+                                let out = bs.w.svm.process(&mut bk, &init, &[]);
+                                if out.ok() && bk.get(&forged).map(|a| a.data[..3 + 32 * mb[1] as usize] == img[..3 + 32 * mb[1] as usize]).unwrap_or(false) {
+                                    acc.count("multisig_forgeries_built");
+                                    variants.push(("i:multisig_shaped_like_a_token_account".into(), bk, with_signer(&g.ix, a.slot, other_user).with_key(token_slot, forged), false));
+                                } else {
+                                    acc.notes.push(format!("HARNESS-ERROR could not forge the multisig for {}: {:?}", g.name, out.err));
+                                    acc.count("harness_errors");
+                                }
+                            }
+                        }
                         // (d) delegates
                         if let Some(ta) = &tok_acct {
                             for amount in [0u64, 1, 2] {
@@ -214,5 +241,6 @@ pub fn run(tier: Tier, seed: u64) -> i32 {
     rep.floor("goldens_ok", 55);
     rep.floor("variants_rejected", 400);
     rep.floor("legitimate_delegate_passes", 10);
+    rep.floor("multisig_forgeries_built", 5);
     rep.finish()
 }
